@@ -228,6 +228,15 @@ def check(ctx):
     except _AR as e_:
         ok = False
     ctx.ob("C12.S3", f"{g.short}/from-mtime", ok, loc(g), "datetime built from the file's mtime, unmodified" if ok else "modified time is not the file's mtime")
+    # "never decreases across successive writes": the values are compared by their users as they come.  Aware values and naive
+    # UTC values order like the instants they denote; naive LOCAL values do not (comparison ignores fold: the hour before the
+    # clocks go back is repeated).  Evaluated on the datetime frame model of C18.
+    from .c18 import ADT as _ADT
+    naive_local = isinstance(r_there, _ADT) and r_there.zone is None and dict(r_there.coefs) == {"LOCAL": 1}
+    ctx.ob("C12.S3", "STORE/modified-time-orders-like-the-instants", not naive_local, loc(g),
+           "the reported value orders like the file's mtime (aware, or naive UTC)" if not naive_local else
+           "the reported value is naive local time (datetime.fromtimestamp(t)): across a daylight-saving fall-back a later write reports a "
+           "SMALLER value (01:30 fold=0, then 01:10 fold=1; comparison ignores fold) - the modified time decreases across successive writes")
     fm = filestore.methods.get("get_modified_time")
     rets = [n for n in fm.own_nodes() if isinstance(n, ast.Return)] if fm else []
     ok = bool(fm) and len(rets) == 1 and isinstance(rets[0].value, ast.Call) and g in m.callee_funcs(fm, rets[0].value) and \
